@@ -421,6 +421,7 @@ func TestVerifC05(t *testing.T) {
 		nd = 12000
 	}
 	c05Bubble(t, func() { c05DialPeerStaleExit(out) })
+	c05Bubble(t, func() { c05DialPeerSendCancel(out) })
 	for i := 0; i < nd; i++ {
 		size := 6 + r.Intn(30)
 		c05Bubble(t, func() { c05DialPeerRandom(out, r, size) })
